@@ -374,6 +374,8 @@ def native_catalogue():
         "upper case markers and names": [[r[0].upper()] + ([r[1].upper()] if r[0] == "d" else [r[1]]) + r[2:] for r in BASE],
         "blanks around markers": [[" %s " % r[0]] + r[1:] for r in BASE],
         "reordered properties": [BASE[0], BASE[2], BASE[1]] + BASE[3:],
+        "data format rows after the first field": [BASE[0]] + BASE[3:4] + BASE[1:3] + BASE[4:],
+        "data format row between checks": BASE[:1] + BASE[2:8] + BASE[1:2] + BASE[8:],
         "blank padded cells": [[r[0], " " + r[1] + " "] + r[2:] if r[0] == "f" else r for r in BASE],
         "property name with underscore": [["d", "item_delimiter", ";"] if r[1] == "item delimiter" else r for r in BASE],
         "empty mark in lower case": [[c if (i != 3 or r[0] != "f") else c.lower() for i, c in enumerate(r)] for r in BASE],
@@ -434,6 +436,14 @@ def native_catalogue():
         "duplicate check description": with_row(8, ["c", "id must be unique", "DistinctCount", "gender <= 2"]),
         "distinct count naming unknown field": with_row(8, ["c", "few genders", "DistinctCount", "sex <= 2"]),
         "check before fields": (BASE[:3] + BASE[7:8] + BASE[3:7] + BASE[8:], 3),
+        "field type with unterminated quote": with_row(4, ["f", "surname", "", "", "", "Text '", ""]),
+        "field type with open bracket": with_row(4, ["f", "surname", "", "", "", "(Text", ""]),
+        "unique rule with unterminated quote": with_row(7, ["c", "id must be unique", "IsUnique", "'customer_id"]),
+        "unique rule with open bracket": with_row(7, ["c", "id must be unique", "IsUnique", "(customer_id"]),
+        "distinct count rule with unterminated quote": with_row(8, ["c", "few genders", "DistinctCount", "gender < '2"]),
+        "attribute name as property": insert(1, ["d", "location", "x"]),
+        "attribute name as property 2": insert(1, ["d", "is valid", "1"]),
+
     }
     for name, (rows, line) in defects.items():
         for shift, pre in (("", []), (" after empty and comment rows", [[], ["", "comment"], []])):
